@@ -5,7 +5,7 @@
 (* the query, heuristic, restrictions, limits and cost configuration.          *)
 EXTENDS Search, Json
 
-CONSTANTS NV, MaxE, Lens, Spds, Heads, HVals, Dirs, TieVals, MaxBad, Limits, Delays, Weights, Surs,
+CONSTANTS NV, MaxE, Lens, Spds, Heads, HVals, Dirs, TieVals, MaxBad, Limits, Delays, Weights, Surs, CUs,
           NoDst,      \* TRUE: also searches without a destination
           OkSubsets,  \* TRUE: every subset of forbidden edges; FALSE: all edges permitted
           NeedConsistent  \* TRUE: only heuristics that are consistent on the permitted edges
@@ -13,7 +13,7 @@ CONSTANTS NV, MaxE, Lens, Spds, Heads, HVals, Dirs, TieVals, MaxBad, Limits, Del
 Empty == [nv |-> NV, E |-> <<>>, hd |-> <<>>, src |-> 1, dst |-> 0, dir |-> "fwd",
           wd |-> 1, wt |-> 0, rd |-> 1, rt |-> 1, sur |-> <<>>, acc |-> "none",
           delay |-> [i \in 1..8 |-> 0], ok |-> <<>>, bad |-> {}, h |-> [v \in 1..NV |-> 0],
-          itl |-> -1, szl |-> -1, init |-> <<0, 0>>, ties |-> FALSE]
+          itl |-> -1, szl |-> -1, init |-> <<0, 0>>, ties |-> FALSE, cu |-> <<1000, 1, 1000, 1>>]
 
 (* named constant values (the cfg parser has no negative numbers / nested tuples) *)
 NoLimits == {<<-1, -1>>}
@@ -25,6 +25,8 @@ SomeDelay == {[i \in 1..8 |-> 0], [i \in 1..8 |-> IF i = 1 THEN 0 ELSE IF i = 8 
 DistOnly == {<<1, 0, 1, 1>>}
 TimeOnly == {<<0, 1, 1, 1>>}
 AllLimits == IterLimits \cup SizeLimits \cup BothLimits
+BaseCU == {<<1000, 1, 1000, 1>>}                       \* state features in metres and seconds
+MixedCU == {<<1, 1, 50, 3>>, <<1000, 1, 5, 18>>, <<1, 1, 1000, 1>>}   \* km + minutes, m + hours, km + seconds
 Blend == {<<1, 0, 1, 1>>, <<0, 1, 1, 1>>, <<1, 1, 1, 2>>, <<2, 1, 1, 1>>}
 
 KeyLE(a, b) == \/ a[1] < b[1]
@@ -55,13 +57,14 @@ ConsistentH(s) ==
       LET near == IF s.dir = "fwd" THEN s.E[e][1] ELSE s.E[e][2]
           far  == IF s.dir = "fwd" THEN s.E[e][2] ELSE s.E[e][1]
           tt   == IF s.E[e][4] = 0 THEN 0 ELSE s.E[e][3] \div s.E[e][4]
-          raw  == s.wd * s.rd * s.E[e][3] + s.wt * s.rt * tt + s.wd * s.sur[e]
-          c    == K * (IF raw <= 0 THEN 0 ELSE raw)
+          raw  == (s.wd * s.rd * s.E[e][3] * s.cu[1]) \div s.cu[2] + (s.wt * s.rt * tt * s.cu[3]) \div s.cu[4]
+                     + K * s.wd * s.sur[e]
+          c    == IF raw <= 0 THEN 0 ELSE raw
       IN s.h[near] <= c + s.h[far]
 
 Start == /\ pc = "build"
          /\ \E src \in 1..NV, dst \in 0..NV, dir \in Dirs, ties \in TieVals, lim \in Limits,
-               dl \in Delays, w \in Weights :
+               dl \in Delays, w \in Weights, cuv \in CUs :
               /\ dst # src /\ (dst = 0 => NoDst)
               /\ \E hh \in [1..NV -> HVals], okv \in OkVecs(scn), bad \in BadSets(scn) :
                    /\ (dst # 0 => hh[dst] = 0) /\ (dst = 0 => \A v \in 1..NV : hh[v] = 0)
@@ -69,7 +72,7 @@ Start == /\ pc = "build"
                                            !.itl = lim[1], !.szl = lim[2], !.h = hh, !.ok = okv, !.bad = bad,
                                            !.acc = IF \A i \in 1..8 : dl[i] = 0 THEN "none" ELSE "turn",
                                            !.delay = dl,
-                                           !.wd = w[1], !.wt = w[2], !.rd = w[3], !.rt = w[4]]
+                                           !.wd = w[1], !.wt = w[2], !.rd = w[3], !.rt = w[4], !.cu = cuv]
                       IN /\ (NeedConsistent => ConsistentH(s))
                          /\ Setup(s)
 
